@@ -1,5 +1,13 @@
 package vharness
 
+import (
+	"time"
+
+	varmq "github.com/goptics/varmq"
+	"github.com/goptics/varmq/internal/queues"
+	"github.com/goptics/varmq/internal/vrt"
+)
+
 func init() {
 	// submit: producers x dispatcher x pool; the basic exactly-once / limit / progress / order scenario.
 	for _, kp := range allKinds() {
@@ -37,4 +45,83 @@ func init() {
 			},
 		})
 	}
+	// prio-order: a paused, pre-loaded priority queue is resumed while a producer keeps adding (C04)
+	for _, kp := range []kindPair{{Plain, Prio}, {ErrW, Prio}, {ResW, Prio}, {Plain, PersPrio}, {Plain, DistPrio}} {
+		kp := kp
+		Register(&Scenario{
+			Name:  name("prio-order/%s", kp),
+			Props: []string{"C04", "C01", "C09"},
+			Mode:  "NB", Quick: 2, Thorough: 3, Shards: 8,
+			Body: func(h *H) {
+				w := h.NewWorker(kp.W, 1)
+				q := w.Bind(kp.Q, nil)
+				w.Pause()
+				q.Add(0, AddOpt{Prio: 2})
+				q.Add(1, AddOpt{Prio: 1})
+				q.Add(2, AddOpt{Prio: 1})
+				q.Add(3, AddOpt{Prio: -5})
+				go func() { q.Add(4, AddOpt{Prio: 0}); q.Add(5, AddOpt{Prio: 1}) }()
+				w.Resume()
+				h.End()
+			},
+		})
+	}
+	// segment: FIFO segment capacities (2,3) so that the third and the sixth job cross a segment boundary (C01, C04)
+	for _, kp := range []kindPair{{Plain, Fifo}, {ResW, Fifo}, {Plain, Pers}} {
+		kp := kp
+		Register(&Scenario{
+			Name:  name("segment/%s", kp),
+			Props: []string{"C01", "C04", "C17"},
+			Mode:  "NB", Quick: 2, Thorough: 3, Shards: 8,
+			Body: func(h *H) {
+				if !queues.VrtSetCaps(2, 3) {
+					h.Notes = append(h.Notes, "capacity variables not found: real capacities used")
+				}
+				w := h.NewWorker(kp.W, 1)
+				q := w.Bind(kp.Q, nil)
+				go func() { q.Add(4, AddOpt{}); q.Add(5, AddOpt{}) }()
+				for i := 0; i < 4; i++ {
+					q.Add(i, AddOpt{})
+				}
+				h.End()
+			},
+		})
+	}
+	// burst: more jobs than the first two real segments (1024 + 1536), canonical schedule only (thorough tier)
+	Register(&Scenario{
+		Name:  "burst/plain-fifo",
+		Props: []string{"C01", "C04"},
+		Mode:  "DB", Quick: 0, Thorough: 0, Shards: 1, MaxSteps: 2_000_000, Only: "thorough",
+		Body: func(h *H) {
+			h.NoMon = true
+			h.Shape = Instant
+			w := h.NewWorker(Plain, 2)
+			q := w.Bind(Fifo, nil)
+			w.Pause()
+			for i := 0; i < 1024+1536+8; i++ {
+				q.Add(i, AddOpt{})
+			}
+			w.Resume()
+			h.End()
+		},
+	})
+	// reaper with the pool cache allowed to drop nodes (sync.Pool may do so at any time)
+	Register(&Scenario{
+		Name:  "reaper-poolchoice",
+		Props: []string{"C01", "C03", "C18"},
+		Mode:  "DB", Quick: 2, Thorough: 3, Shards: 16, PoolChoice: true,
+		Body: func(h *H) {
+			w := h.NewWorker(Plain, 2, varmq.WithIdleWorkerExpiryDuration(time.Second))
+			w.Expiry = true
+			q := w.Bind(Fifo, nil)
+			q.Add(0, AddOpt{})
+			q.Add(1, AddOpt{})
+			h.Quiesce(true)
+			vrt.Arm(1)
+			q.Add(2, AddOpt{})
+			h.Quiesce(true)
+			q.Add(3, AddOpt{})
+			h.End()
+		},
+	})
 }
